@@ -24,7 +24,8 @@ type cancelCase struct {
 const cancelPrelude = `(do (def lp (fn [n] (lp (+ n 1))))
  (def rc (fn [n] (if (< n 1) 0 (+ 1 (rc (- n 1))))))
  (def rcl (fn [] (rc 300) (rcl)))
- (defmacro spin (fn [] '(spin))))`
+ (defmacro spin (fn [] '(spin)))
+ (def spa (atom 0)))`
 
 var cancelMu sync.Mutex // the loop-top hook is process-wide
 
@@ -198,6 +199,11 @@ func runDeadline(c *Case) Verdict {
 	v := Verdict{Class: "deadline"}
 	D := 1200 * time.Millisecond
 	slack := 2500 * time.Millisecond
+	if strings.Contains(c.Src, "(swap! spa") && !strings.Contains(c.Src, "try") {
+		// a swap! that has been retrying for a while: whatever it does between two attempts must not grow with the
+		// time it has already spent
+		D = 4500 * time.Millisecond
+	}
 	attempt := func() (string, string) {
 		ns, probe, err := cancelEnv()
 		if err != nil {
